@@ -116,9 +116,11 @@ def h12_consume_broker(S, backend="redis"):
     clock = PinnedClock(ts)
     out = {}
     S.tag("backend", backend)
+    prio = [0, 5, 9][S.pick("priority", 3)]
+    S.tag("priority", prio)
 
     async def main(loop):
-        key = RoutingKey(topic="job", queue="default", id_="m1")
+        key = RoutingKey(topic="job", queue="default", id_="m1", priority=prio)
         params = P.Parameters(timestamp=S.datetime_us(ts), ttl=S.timedelta_us(ttl) if has_ttl else None)
         if backend == "redis":
             from fakes import redis as fr
@@ -192,7 +194,7 @@ HARNESSES = [
 ]
 HARNESSES += [
     Harness(name="H12-consume-redis", scenario=_cb("redis"),
-            bounds={"timestamp": "2000..2050", "ttl": "None or [1 s, 100 y]", "delivery instant": "any µs >= timestamp up to 2100"},
+            bounds={"timestamp": "2000..2050", "ttl": "None or [1 s, 100 y]", "delivery instant": "any µs >= timestamp up to 2100", "priority": "LOW / MEDIUM / HIGH"},
             functions=["connections/redis/consumer.py:_RedisConsumer.consume_or_none", "connections/redis/message_broker.py:RedisMessageBroker.nack"],
             covers=["handed-over", "withheld"], stubs=["fake Redis server; parameters cross the JSON text through sentinels"]),
     Harness(name="H12-consume-rabbit", scenario=_cb("rabbit"),
